@@ -52,7 +52,8 @@ def to_cart(returns, result):
     else:
         x, y = vals[0] * math.cos(vals[1]), vals[0] * math.sin(vals[1])
     out = [x, y]
-    rho = math.hypot(x, y)
+    # the library reads z off the STORED rho (which an operation may legitimately leave negative: same geometric vector)
+    rho = math.hypot(x, y) if az == "AzimuthalXY" else vals[0]
     if len(rets) >= 2 and rets[1] is not None:
         lg = rets[1]
         c = vals[2]
@@ -111,7 +112,7 @@ def close(a, b, rtol, scale):
     return abs(a - b) <= rtol * max(scale, abs(a), abs(b))
 
 
-def run_storage_independence(ctx, seed, reps, strata=("first_octant", "octants", "large", "z_axis", "spacelike"), modules=None, rtol=2e-7):
+def run_storage_independence(ctx, seed, reps, strata=("first_octant", "octants", "large", "z_axis", "spacelike", "negative_time"), modules=None, rtol=2e-7):
     import vector._compute.lorentz
     import vector._compute.planar
     import vector._compute.spatial
@@ -145,20 +146,24 @@ def run_storage_independence(ctx, seed, reps, strata=("first_octant", "octants",
                     continue
                 rng = H.rng_for(seed, "C01", full, [getattr(s, "__name__", s) for s in sig])
                 for stratum in strata:
-                    if stratum == "spacelike" and pk != "lorentz":
+                    if stratum in ("spacelike", "negative_time") and pk != "lorentz":
                         continue
+                    if stratum == "negative_time" and (len(groups[0]) < 3 or groups[0][2] != "TemporalT"):
+                        continue          # a negative time is representable with t storage only
                     for rep in range(reps):
                         carts = []
                         for gi, g in enumerate(groups):
                             role = "beta3" if (mname == "boost_beta3" and gi == 1) else "vec"
                             st_ = "octants" if stratum == "z_axis" else stratum
-                            if stratum == "spacelike" and (gi > 0 or role == "beta3"):
-                                st_ = "octants"      # only the first operand is space-like (boosters stay time-like)
-                            ct = cart_operand(rng, st_, len(g), role)
+                            if stratum in ("spacelike", "negative_time") and (gi > 0 or role == "beta3"):
+                                st_ = "octants"      # only the first operand is space-like / backward (boosters stay forward time-like)
+                            ct = cart_operand(rng, "octants" if st_ == "negative_time" else st_, len(g), role)
+                            if st_ == "negative_time":
+                                ct = (ct[0], ct[1], ct[2], -ct[3])     # backward time-like: t < -|p|
                             if stratum == "z_axis" and len(g) >= 2 and g[1] == "LongitudinalZ" and (rep + gi) % 2 == 0:
                                 ct = (0.0, 0.0, ct[2], ct[3])   # exactly on the z axis: representable with z storage
                             carts.append(ct)
-                        if mname in ("equal", "not_equal", "isclose") and rep % 2 == 0 and len(groups) == 2 and stratum != "z_axis":
+                        if mname in ("equal", "not_equal", "isclose") and rep % 2 == 0 and len(groups) == 2 and stratum not in ("z_axis", "negative_time"):
                             carts[1] = carts[0]
                         scal = [scalar_for(rng, p, mname) for p in scal_names]
                         if mname == "rotate_quaternion":
@@ -206,7 +211,7 @@ def run_storage_independence(ctx, seed, reps, strata=("first_octant", "octants",
                                       "cartesian_args": cargs, "stratum": stratum})
                             continue
                         if len(g_) != len(w_) or not all(close(a, b, rtol, floor) for a, b in zip(g_, w_)):
-                            ctx.fail(f"compute:{full}:storage_dependence",
+                            ctx.fail(f"compute:{full}:storage_dependence" + (":negative_time" if stratum == "negative_time" else ""),
                                      f"variant {'_'.join(H_SIGN(s) for s in sig)} gives {g_}, the Cartesian variant {w_}",
                                      {"module": full, "sig": [getattr(s, "__name__", s) for s in sig], "scalars": scal, "args": args,
                                       "cartesian_args": cargs, "stratum": stratum})
